@@ -30,3 +30,16 @@ Proof.
   eexists _, _, _. split; [reflexivity|]. split; [reflexivity|]. split; [reflexivity|].
   eexists _, _, _. reflexivity.
 Qed.
+
+(* before de9a2b8: a listener could name an anonymous placeholder of an already registered handler *)
+Lemma params_exact_v0_refuted_pf : exists pat hid lpat l name,
+  let root1 := out_state (add empty_node pat hid [] false) in
+  is_ok (add empty_node pat hid [] false) = true /\
+  is_ok (add_listener root1 lpat l) = false /\
+  is_ok (add_listener_v0 root1 lpat l) = true /\
+  pvalues (ptoks pat) (tokens name) = [] /\
+  exists g, get_handler_node [] (out_state (add_listener_v0 root1 lpat l)) name = LHit hid [l] [(s2b "w", s2b "foo")] g.
+Proof.
+  exists (s2b "a.*"), 1, (s2b "a.$w"), 7, (s2b "a.foo"). vm_compute.
+  repeat (split; [reflexivity|]). eexists. reflexivity.
+Qed.
